@@ -1,7 +1,29 @@
 DEFAULT_NA = "not claimed yet: the check for this property has not been built in this round (staged plan in DESIGN.md section 10); the technique applies"
 NOT_APPLICABLE = {}
 NOTES = "All checks: ./check <id> --tier quick|thorough (cwd /verif). Fix commits and known findings: known_findings.json, DESIGN.md section 8."
+_T = "Lean 4 proof over hand-written model + differential correspondence"
+_N = "Trusted: Lean kernel, axioms listed per theorem in the evidence, the hand-written model, the correspondence harness (bounded generator) and the driver's JSON/tokenizer glue, CPython, pycryptosat for oracles."
 CHECKS = {
+    "C11": {
+        "text": "Lean 4 theorems about the model of logic.py: Tseitin (models on the original variables, unique extension, fresh range, cnf_to_json shape), naive (equivalent, no new variables) and switching (partial correctness of the fuelled model) for all formulas; tied to logic.py by tree-exact correspondence of the three conversions and cnf_to_json on exhaustive small + random formulas, plus a truth-table oracle on the implementation.",
+        "design_ref": "7 (C11)", "note": _N + " str() of a namedtuple of ints is an injective cache key; list.sort is stable. Switching: termination not proved (fuel).",
+        "technique": _T,
+    },
+    "C13": {
+        "text": "Lean 4 theorems about the model of combinatorics.py: each unranking function is range-correct, injective below N and surjective onto its kind of arrangement, N being the matching count; tied to combinatorics.py by value-exact correspondence (exhaustive small parameters incl. one-past-the-end indices, random large, shared memo tables) and a brute-force bijection oracle.",
+        "design_ref": "7 (C13)", "note": _N + " The continuation machine with its memo table is tied to the model's clean recursion by correspondence only. Theorems still open are listed per run in coverage.theorems / audit_problems.",
+        "technique": _T,
+    },
+    "C27": {
+        "text": "Lean 4 theorems about the token-level model of the DIMACS/unigen printers, the three parsers, update_file and the solver-output parser (parse∘print = id, header counts, the added clause excludes exactly the previous solution), tied to the code by byte-exact text correspondence and parser-output correspondence, plus an implementation oracle that enumerates models before/after update_file.",
+        "design_ref": "7 (C27)", "note": _N + " str.split/int()/str() are trusted (tokenizer/renderer checked per instance).",
+        "technique": _T,
+    },
+    "C28": {
+        "text": "Lean 4 theorems: OPB rows mean clause satisfaction / the cardinality request / exclusion of the previous solution, and (through C10.combine_models) the OPB export accepts the same assignments as the SAT encoding; tied to the code by byte-exact OPB text correspondence and an independent OPB evaluator vs the SAT encoding over all assignments.",
+        "design_ref": "7 (C28)", "note": _N + " Gurobi is absent: OPB text has its standard pseudo-Boolean meaning.",
+        "technique": _T,
+    },
     "C12": {
         "text": "Lean 4 theorems about the model of the adder / pop-count builders (every gate is a definitional extension; ripple and pop-count outputs equal the sums, for all widths and assignments), tied to core/cnf.py by clause-exact correspondence, plus an exhaustive small-width oracle on the implementation.",
         "design_ref": "7 (C12), 3.3, 4",
